@@ -7,6 +7,9 @@
       thread's active traceparent with the frame's slot when the frame is active (:859-873)
     * `incoming_traceparent(sampler, props, flags)`                                                        (:880-970)
     * `TraceparentFilter::matches` (:1026-1043), `InSampledTraceFilter::matches` (:1047-1060)
+    * a MANUAL span — a span-kind event that already carries an extent, emitted through `emit_core::emit`
+      (/repo/core/src/lib.rs:56-79: ambient props appended to the event's own, then the runtime filter) — goes through
+      the same span branch of `TraceparentFilter::matches` as the start event of a `SpanGuard` (`emitSpanEvent`)
   and the span machinery it is driven by, /repo/src/span.rs: `SpanCtxt::current`, `new_child` (:758-783),
   `SpanGuard::new` (:909-976: child ctxt → filter verdict → `Frame::push` or `Frame::disabled`).
 
@@ -70,6 +73,8 @@ inductive Obs where
   | spanOpen (enabled : Bool) (ids : Ids)              -- the child's own SpanCtxt and the filter verdict
   | spanDone (ids : Ids)                               -- a span event was emitted; ambient ids on it
   | event (cur : TP) (state : Nat) (ids : Ids) (passTraceparent passInSampled : Bool)
+  -- a span emitted as an event (no guard): the ids the runtime filter sees on it and both filters' verdicts
+  | spanEvent (ids : Ids) (passTraceparent passInSampled : Bool)
   deriving Repr, DecidableEq
 
 structure Env where
@@ -127,6 +132,9 @@ def incoming (c : Cfg) (useSampler : Bool) (st : Option Active) (traceId : Optio
 
 inductive Prog where
   | event                                      -- observe `Traceparent::current`, ambient ids, both filters
+  | spanEvent                                  -- a completed span emitted as an EVENT through the runtime (range
+                                               --   extent, `evt_kind: span`, ids of a new child of the current
+                                               --   span context); no guard, no frame
   | span (children : List Prog)                -- a span whose body runs the children on the same thread
   | spanThread (children : List Prog)          -- … whose body (guard + frame) is moved to a fresh thread
   | spanAsync (children : List Prog)           -- … whose body is a future polled once per child: the frame is
@@ -165,6 +173,32 @@ def observeEvent (c : Cfg) (e : Env) : Env :=
     | none => c.outside
   -- a non-span event always passes TraceparentFilter
   { e with out := .event (current e.st) (currentState e.st) (ambientIds e.st) true passIn :: e.out }
+
+/-- A MANUAL span: `SpanCtxt::current(ctxt).new_child(rng)` (src/span.rs:758-781), then the span — with a range
+    extent, `evt_kind: span` and those ids as its own props — is emitted through `Runtime::emit`
+    (core/src/lib.rs:56-79): the ambient props are appended to the event's own and the runtime filter decides.
+    `TraceparentFilter::matches` (:1030-1046) takes its span branch whatever the extent: the same
+    `incoming_traceparent(sampler, props, SAMPLED)` as for the start event of a guard — the sampler is consulted
+    when no valid traceparent is active — and the verdict is the incoming sampled flag (`true` when the props do not
+    start a span here). `InSampledTraceFilter::matches` (:1055-1063) looks at the active traceparent only.
+    Nothing is pushed: the thread's active traceparent is untouched. -/
+def emitSpanEvent (c : Cfg) (e : Env) : Env :=
+  let cur := ambientIds e.st
+  -- SpanCtxt::new_child: inherit the trace id or draw one, parent = current span id, draw a span id
+  let (traceId, rng1) := match cur.traceId with
+    | some t => (some t, e.rng)
+    | none => (some (.gen (e.rng + 1)), e.rng + 1)
+  let spanId : Id := .gen (rng1 + 1)
+  -- what the filter sees: the event's own ids first (absent ones are not enumerated), then the ambient ids
+  let seen : Ids := ⟨traceId, cur.spanId.or cur.spanParent, some spanId⟩
+  let (fslot, calls1, obs1) := incoming c c.hasSampler e.st traceId (some spanId) .sampled e.calls
+  let pass := match fslot with
+    | some a => a.tp.sampled
+    | none => true
+  let passIn := match e.st with
+    | some a => a.tp.sampled
+    | none => c.outside
+  { e with rng := rng1 + 1, calls := calls1, out := .spanEvent seen pass passIn :: (obs1 ++ e.out) }
 
 /-- `enter`: an active frame (one with a slot) swaps its slot with the thread's active traceparent. -/
 def enterSt (slot st : Option Active) : Option Active :=
@@ -214,6 +248,7 @@ def Frm.swap (f : Frm) (st : Option Active) : Frm × Option Active :=
 mutual
 def run (c : Cfg) : Prog → Env → Env
   | .event, e => observeEvent c e
+  | .spanEvent, e => emitSpanEvent c e
   | .span cs, e =>
     let o := openSpan c e
     let e1 := o.2.2.2
